@@ -361,7 +361,52 @@ func main() {
 	table("FilterInsts", "Filter", "*ecs.World", flts)
 	table("ObsInsts", "Obs", "ecs.EventType", obss)
 
-	if err := os.WriteFile("eng/adapters_gen.go", []byte(b.String()), 0o644); err != nil {
+	out := instrument(b.String())
+	if err := os.WriteFile("eng/adapters_gen.go", []byte(out), 0o644); err != nil {
 		panic(err)
 	}
+}
+
+// instrument adds an API-coverage counter call to every adapter method.
+func instrument(src string) string {
+	lines := strings.Split(src, "\n")
+	var out []string
+	kind := map[string]string{}
+	for _, l := range lines {
+		// type map3_0 struct { ... m *ecs.Map3[...] }
+		if strings.HasPrefix(l, "type ") && strings.HasSuffix(l, "struct {") {
+			f := strings.Fields(l)
+			kind["cur"] = f[1]
+		}
+		for _, pre := range []string{"\tm *ecs.", "\tf *ecs.", "\to *ecs.", "\tq ecs."} {
+			if strings.HasPrefix(l, pre) {
+				t := strings.TrimPrefix(l, pre)
+				if i := strings.Index(t, "["); i >= 0 {
+					t = t[:i]
+				}
+				kind[kind["cur"]] = t
+			}
+		}
+		if strings.HasPrefix(l, "func (a *") && strings.HasSuffix(l, " }") && strings.Contains(l, " { ") {
+			recv := l[len("func (a *"):strings.Index(l, ")")]
+			rest := l[strings.Index(l, ")")+2:]
+			meth := rest[:strings.Index(rest, "(")]
+			if meth != "Name" && meth != "Comps" {
+				i := strings.Index(l, " { ")
+				out = append(out, l[:i+2], fmt.Sprintf("\thit(%q)", kind[recv]+"."+meth), "\t"+strings.TrimSuffix(l[i+3:], " }"), "}")
+				continue
+			}
+		}
+		out = append(out, l)
+		if strings.HasPrefix(l, "func (a *") && strings.HasSuffix(l, "{") {
+			recv := l[len("func (a *"):strings.Index(l, ")")]
+			rest := l[strings.Index(l, ")")+2:]
+			meth := rest[:strings.Index(rest, "(")]
+			if meth == "Name" || meth == "Comps" {
+				continue
+			}
+			out = append(out, fmt.Sprintf("\thit(%q)", kind[recv]+"."+meth))
+		}
+	}
+	return strings.Join(out, "\n")
 }
